@@ -99,15 +99,19 @@ def DataFrame_split_join_by_decorators : List String := []
 /-- the signature of dataiter/data_frame.py: DataFrame._split_join_by: parameters in order, with the source text of their defaults -/
 def DataFrame_split_join_by_signature : List String := ["self", "*by"]
 
-/-- dataiter/data_frame.py: DataFrame._get_join_indices (sha256 of the function source: 03068a1b581400ad) -/
+/-- dataiter/data_frame.py: DataFrame._get_join_indices (sha256 of the function source: 9827df43ea4b302b) -/
 def DataFrame_get_join_indices (truth : Term → Bool) : Out :=
-  let other_ids' : Term := (Term.app "list()" [(Term.app "zip" [(Term.app "*" [(Term.app "ListComp" [(Term.app "getitem" [(Term.sym "other"), (Term.sym "x")]), (Term.app "in" [(Term.sym "x"), (Term.sym "by2"), (Term.app "if" [])])])])])]);
+  let keys1' : Term := (Term.app "ListComp" [(Term.app "getitem" [(Term.sym "self"), (Term.sym "x")]), (Term.app "in" [(Term.sym "x"), (Term.sym "by1"), (Term.app "if" [])])]);
+  let keys2' : Term := (Term.app "ListComp" [(Term.app "getitem" [(Term.sym "other"), (Term.sym "x")]), (Term.app "in" [(Term.sym "x"), (Term.sym "by2"), (Term.app "if" [])])]);
+  let eff0 : Term := (Term.app "for" [(Term.app "tuple" [(Term.sym "i"), (Term.app "tuple" [(Term.sym "key1"), (Term.sym "key2")])]), (Term.app "enumerate" [(Term.app "zip" [keys1', keys2'])]), (Term.app "block" [(Term.app "if" [(Term.app "And" [(Term.app ".is_datetime" [(Term.sym "key1")]), (Term.app ".is_datetime" [(Term.sym "key2")]), (Term.app "NotEq" [(Term.app ".dtype" [(Term.sym "key1")]), (Term.app ".dtype" [(Term.sym "key2")])])]), (Term.app "block" [(Term.app "assign" [(Term.sym "dtype"), (Term.app "np.promote_types" [(Term.app ".dtype" [(Term.sym "key1")]), (Term.app ".dtype" [(Term.sym "key2")])])]), (Term.app "assign" [(Term.app "tuple" [(Term.sym "new1"), (Term.sym "new2")]), (Term.app "tuple" [(Term.app ".astype" [(Term.sym "key1"), (Term.sym "dtype")]), (Term.app ".astype" [(Term.sym "key2"), (Term.sym "dtype")])])]), (Term.app "if" [(Term.app "And" [(Term.app ".all" [(Term.app ".equal" [(Term.app ".astype" [(Term.sym "new1"), (Term.app ".dtype" [(Term.sym "key1")])]), (Term.sym "key1")])]), (Term.app ".all" [(Term.app ".equal" [(Term.app ".astype" [(Term.sym "new2"), (Term.app ".dtype" [(Term.sym "key2")])]), (Term.sym "key2")])])]), (Term.app "block" [(Term.app "assign" [(Term.app "tuple" [(Term.app "getitem" [(Term.sym "keys1"), (Term.sym "i")]), (Term.app "getitem" [(Term.sym "keys2"), (Term.sym "i")])]), (Term.app "tuple" [(Term.sym "new1"), (Term.sym "new2")])])]), (Term.app "block" [])])]), (Term.app "block" [])])])]);
+  let dtype' : Term := (Term.app "value-after-loop" [(Term.sym "dtype"), eff0]);
+  let other_ids' : Term := (Term.app "list()" [(Term.app "zip" [(Term.app "*" [keys2'])])]);
   let other_by_id' : Term := (Term.app "DictComp" [(Term.app "pair" [(Term.app "getitem" [other_ids', (Term.sym "i")]), (Term.sym "i")]), (Term.app "in" [(Term.sym "i"), (Term.app "range" [(Term.app ".nrow" [(Term.sym "other")])]), (Term.app "if" [])])]);
-  let self_ids' : Term := (Term.app "zip" [(Term.app "*" [(Term.app "ListComp" [(Term.app "getitem" [(Term.sym "self"), (Term.sym "x")]), (Term.app "in" [(Term.sym "x"), (Term.sym "by1"), (Term.app "if" [])])])])]);
+  let self_ids' : Term := (Term.app "zip" [(Term.app "*" [keys1'])]);
   let src' : Term := (Term.app "map" [(Term.app "lambda" [(Term.app "params" [(Term.sym "x")]), (Term.app ".get" [other_by_id', (Term.sym "x"), (Term.int (-(1 : Int)))])]), self_ids']);
   let src' : Term := (Term.app "np.fromiter" [src', (Term.sym "int"), (Term.app "=count" [(Term.app ".nrow" [(Term.sym "self")])])]);
   let found' : Term := (Term.app "np.where" [(Term.app "Gt" [src', (Term.int (-(1 : Int)))])]);
-  Out.ret [] (Term.app "tuple" [found', src'])
+  Out.ret [eff0] (Term.app "tuple" [found', src'])
 
 /-- the decorators of dataiter/data_frame.py: DataFrame._get_join_indices, outermost first -/
 def DataFrame_get_join_indices_decorators : List String := []
